@@ -68,12 +68,15 @@ L_LOCK_SLOW = {"nsync_mu_lock_slow_": [
                     # C14: a thread that has not waited keeps MU_LONG_WAIT / MU_WRITER_WAITING in its mask
                     "(vp_tag_C14_escalate != 0 || clear != 0 || (zero_to_acquire & 96u) == (l_type->zero_to_acquire & 96u))",
                     "long_wait == 0 || long_wait == 64u",
+                    # C02/C14 L4: a thread that raised MU_LONG_WAIT carries it in the mask it clears on acquisition
+                    "(vp_tag_C02_resp != 0 || vp_g.longw_set == 0 || long_wait == 64u)",
                     "(vp_tag_C14_escalate != 0 || wait_count < 30u || long_wait == 64u)",
                     "vp_g.enq_count == wait_count"],
      "assigns": GLOCK + FWDL + ["mu->word", "mu->waiters", "w->nw.waiting", "clear", "long_wait", "wait_count", "zero_to_acquire", "attempts"]},
     {"names": ["w", "clear", "wait_count"],
      "invariants": ["vp_g.hold == 0 && vp_g.spin == 0 && vp_g.dead == 0", "vp_g.queued == 1",
-                    "(clear == 0 && vp_g.waited == 0) || (clear == 8u && vp_g.waited != 0)", "vp_g.enq_count == wait_count + 1u"],
+                    "(clear == 0 && vp_g.waited == 0) || (clear == 8u && vp_g.waited != 0)", "vp_g.enq_count == wait_count + 1u",
+                    "vp_g.longw_set == __CPROVER_loop_entry(vp_g.longw_set)"],
      "assigns": GLOCK + ["w->nw.waiting"]}]}
 L_REL_SPIN = {"mu_release_spinlock": [{"names": ["mu", "old_word"], "invariants": ["vp_g.spin == 1 && vp_g.dead == 0"],
                                       "assigns": ["vp_g.spin", "vp_g.last_new", "vp_g.dead", "mu->word", "old_word"]}]}
@@ -364,11 +367,11 @@ def cv_groups(tags=None, which=None):
 
 
 def cv_queue_groups(tags=None, tier="quick"):
-    S = ["harness/cv/cv_queue.c"] + RG + ["repo:internal/dll.c", "repo:internal/common.c"]
+    S = ["harness/cv/cv_queue.c"] + RG + ["repo:internal/dll.c", "repo:internal/common.c", "repo:platform/posix/src/time_rep.c"]
     kmax = 3
     gs = []
-    for h in ("h_cv_broadcast", "h_cv_signal"):
-        for n in range(0, kmax + 1):
+    for h in ("h_cv_broadcast", "h_cv_signal", "h_cv_waitable"):
+        for n in range(0, (kmax if h != "h_cv_waitable" else 2) + 1):
             d = ["VP_SEQUENTIAL", "VP_RG_MU", "VP_RG_WAKER", "VP_RG_CV", "VP_REAL_SEM", f"VP_K={kmax}", f"VP_N={n}"]
             if tier == "quick":
                 d.append("VP_WORDS_SMALL")
@@ -376,7 +379,7 @@ def cv_queue_groups(tags=None, tier="quick"):
                             bound=f"exactly {n} waiters on the cv queue (all kinds: native reader / native writer / nsync_wait_n record; with or without an nsync_mu), "
                                   f"{'5' if tier == 'quick' else '10'} representative values of the mutex word, no interference during the call",
                             timeout=1800, unwind=12, defines=d, object_bits=10, tags=tags, min_obligations=100,
-                            functions=["nsync_cv_broadcast", "nsync_cv_signal", "wake_waiters"]))
+                            functions=["nsync_cv_broadcast", "nsync_cv_signal", "wake_waiters"] + (["cv_enqueue", "cv_dequeue", "cv_ready_time"] if h == "h_cv_waitable" else [])))
     return gs
 
 
